@@ -4,6 +4,7 @@ import (
 	"fmt"
 	"golang.org/x/tools/go/ssa"
 	"os"
+	"sort"
 	"strings"
 
 	"idenaverif/internal/engine"
@@ -67,6 +68,8 @@ func C01(p *engine.Prog, r *engine.Report) {
 // get the header and the parent as parameters.
 func c01R6(p *engine.Prog, r *engine.Report, rule string, entries []*ssa.Function) {
 	local := map[string]bool{"Head": true, "PreliminaryHead": true, "isSyncing": true}
+	own := map[string]bool{"appState": true}
+	var badOwn []string
 	// frozen by reading: one line of reason per exception
 	exempt := map[string]string{
 		"ValidationCeremony.shouldInteractWithNetwork": "gates only this node's own logging, broadcasts, key-sync stop and flip preloading (it also reads the wall clock, an A1 instance); no state write depends on it",
@@ -85,6 +88,13 @@ func c01R6(p *engine.Prog, r *engine.Report, rule string, entries []*ssa.Functio
 				fa, ok := ins.(*ssa.FieldAddr)
 				if !ok {
 					continue
+				}
+				if o, fld, ok := engine.FieldOf(fa); ok && o == "Blockchain" && own[fld] {
+					k := engine.RelName(f) + " reads chain." + fld
+					if !seenF[k] {
+						seenF[k] = true
+						badOwn = append(badOwn, k+" at "+p.InstrPos(fa))
+					}
 				}
 				if o, fld, ok := engine.FieldOf(fa); ok && o == "Blockchain" && local[fld] {
 					if why, isEx := exempt[engine.RelName(f)]; isEx {
@@ -106,6 +116,17 @@ func c01R6(p *engine.Prog, r *engine.Report, rule string, entries []*ssa.Functio
 		}
 	}
 	r.Check(len(bad) == 0, rule, "transition reach set|no read of the node's own chain position", "", fmt.Sprintf("%d functions scanned for Blockchain.{Head,PreliminaryHead,isSyncing}", n), "the result of validating/applying a block depends on where this node's own head is: "+strings.Join(bad, "; "))
+	// the node's own state object: every function of the reach set is handed the state it transforms;
+	// reading chain.appState instead mixes in the view at this node's own head
+	{
+		sort.Strings(badOwn)
+		for _, b := range badOwn {
+			r.Bad(rule, "transition reach set|"+strings.SplitN(b, " at ", 2)[0], strings.SplitN(b, " at ", 2)[1], "the transition reads the node's own canonical state object instead of the state it was given: the result of applying a block to a given prior state depends on where this node's own head is")
+		}
+		if len(badOwn) == 0 {
+			r.OK(rule, "transition reach set|no read of the node's own state object", "", fmt.Sprintf("%d functions scanned for Blockchain.appState", n))
+		}
+	}
 	r.Floor(rule, 1, "reach set scan")
 }
 
